@@ -386,9 +386,68 @@ pub fn run(ctx: &'static Ctx) -> (&'static str, Value, Vec<&'static str>) {
             ssr.count("two_actor_schedules", n);
         }
     }
-    let stats = s1.merge(s2).merge(s3).merge(s4).merge(sh).merge(ssr);
+    // context sweep: a first message with one halfword varied (status, VCP, type 31, others),
+    // then a probe message, then a trailer; probe and trailer must decode exactly as they do alone
+    let sctx: Stats = {
+        use rayon::prelude::*;
+        let ctxs = crate::props::disturb::context_messages();
+        let mut probes: Vec<(String, Vec<u8>)> = [7usize, 8, 12, 11, 0, 1].iter().map(|s| (SYMBOLS[*s].to_string(), message_bytes(*s, 1))).collect();
+        // a radial whose VOL block is physically last and carries non-zero bytes to its end
+        {
+            let (h, b) = simple_radial(2, 9, 19000, 4242, &[3], 5, Some(35));
+            let n = b.len();
+            let mut phys: Vec<usize> = (1..n).collect();
+            phys.push(0);
+            let mut m = t31_message(&MsgHeader::simple(31, 19000, 1), &h, &b, &Layout { ptrs: phys.clone(), phys, ..Layout::default() });
+            let l = m.len();
+            for (i, x) in m[l - 12..].iter_mut().enumerate() {
+                if *x == 0 {
+                    *x = 0x21 + i as u8;
+                }
+            }
+            probes.push(("t31_vol_last".to_string(), m));
+        }
+        let trailer = message_bytes(0, 2);
+        let alone: Vec<Option<dm::Message>> = probes.iter().map(|(_, p)| match decode_stream(p.clone()) { Caught::Ret(Ok(mut v)) if v.len() == 1 => v.pop(), _ => None }).collect();
+        for (pi, a) in alone.iter().enumerate() {
+            if a.is_none() {
+                machinery(&format!("C03 context sweep: probe {} does not decode alone: {:?}", probes[pi].0, decode_stream(probes[pi].1.clone()).ret().map(|r| r.map(|v| v.len()))));
+            }
+        }
+        let trailer_alone = match decode_stream(trailer.clone()) { Caught::Ret(Ok(mut v)) if v.len() == 1 => v.pop(), _ => None };
+        ctxs.par_iter()
+            .fold(Stats::new, |mut st, (label, cbytes)| {
+                // a context message that does not decode by itself says nothing about what follows
+                let ctx_ok = matches!(decode_stream(cbytes.clone()), Caught::Ret(Ok(ref v)) if v.len() == 1);
+                for (pi, (pl, pb)) in probes.iter().enumerate() {
+                    st.eval();
+                    if !ctx_ok || alone[pi].is_none() || trailer_alone.is_none() {
+                        st.outcome("context_skipped");
+                        continue;
+                    }
+                    let stream: Vec<u8> = [cbytes.as_slice(), pb.as_slice(), trailer.as_slice()].concat();
+                    let wit = || json!({"op": "context", "context": label, "probe": pl, "context_hex": hex(&cbytes[..cbytes.len().min(200)])});
+                    match decode_stream(stream) {
+                        Caught::Ret(Ok(v)) if v.len() == 3 => {
+                            if Some(&v[1]) != alone[pi].as_ref() || Some(&v[2]) != trailer_alone.as_ref() {
+                                ctx.fail(&format!("context:message_decodes_differently_after_another_message:{pl}"), || format!("after {label}: the {pl} message (or the status message behind it) differs from the same bytes decoded alone"), wit);
+                            }
+                            st.outcome("context_ok");
+                        }
+                        Caught::Ret(Ok(v)) => ctx.fail("context:message_count_changes_after_another_message", || format!("after {label}: {} messages out of 3 ({pl})", v.len()), wit),
+                        Caught::Ret(Err(e)) => ctx.fail("context:well_formed_stream_rejected_after_another_message", || format!("after {label}, probe {pl}: {e}"), wit),
+                        Caught::Panic(p) => ctx.fail(&format!("framing:panic:{}", panic_class(&p)), || format!("after {label}, probe {pl}: {p}"), wit),
+                    }
+                }
+                st.count("context_messages", 1);
+                st.nontrivial(label.as_bytes());
+                st
+            })
+            .reduce(Stats::new, Stats::merge)
+    };
+    let stats = s1.merge(s2).merge(s3).merge(s4).merge(sh).merge(ssr).merge(sctx);
     let cov = stats.coverage(
-        "all streams over a 9-kind alphabet {status, VCP, type 15, type 3, type 18, unknown 200, type-31 with 0 / 4 / 10 blocks} and, one message shorter, over 13 kinds (+ 1840-gate radial larger than a frame, 51-cut VCP, 257-gate 16-bit PHI radial, a radial whose last block is the 12-byte ELV block) of length 0..=5 (thorough 0..=6), each message stamped with its position; all 256x16 (thorough 256x256) two-frame type-code pairs; three 300-message streams; runs of 1..=40,64,100,133..135,150 (thorough 1..=150) consecutive fixed frames, a radial, and a second run; truncations of a base set: every cut for type-31-only streams, every cut within 200 bytes of a message boundary plus a stride inside fixed frames. History: every sequence of <= 3 decode calls over 8 inputs on a fresh thread; short-read reader shapes. Differential oracle: message i equals the same bytes decoded alone. non-trivial = >=2 messages or a truncation; distinct by content hash",
+        "all streams over a 9-kind alphabet {status, VCP, type 15, type 3, type 18, unknown 200, type-31 with 0 / 4 / 10 blocks} and, one message shorter, over 13 kinds (+ 1840-gate radial larger than a frame, 51-cut VCP, 257-gate 16-bit PHI radial, a radial whose last block is the 12-byte ELV block) of length 0..=5 (thorough 0..=6), each message stamped with its position; all 256x16 (thorough 256x256) two-frame type-code pairs; three 300-message streams; runs of 1..=40,64,100,133..135,150 (thorough 1..=150) consecutive fixed frames, a radial, and a second run; truncations of a base set: every cut for type-31-only streams, every cut within 200 bytes of a message boundary plus a stride inside fixed frames. Context sweep: a status / VCP / type-31 message with each halfword set to each of six values, followed by seven probe messages and a trailer that must decode as they do alone. History: every sequence of <= 3 decode calls over 8 inputs on a fresh thread; short-read reader shapes. Differential oracle: message i equals the same bytes decoded alone. non-trivial = >=2 messages or a truncation; distinct by content hash",
         true,
         json!({"alphabet": SYMBOLS, "max_length": maxlen}),
     );
@@ -402,7 +461,7 @@ pub fn run(ctx: &'static Ctx) -> (&'static str, Value, Vec<&'static str>) {
 pub fn replay(ctx: &'static Ctx, case: &Value) {
     let syms: Vec<usize> = case["symbols"].as_array().map(|a| a.iter().map(|x| x.as_u64().unwrap_or(0) as usize).collect()).unwrap_or_default();
     match case["op"].as_str() {
-        Some("two_actor") => {
+        Some("two_actor") | Some("context") => {
             let _ = run(ctx);
         }
         Some("stream") => {
